@@ -172,6 +172,26 @@ def check_root_guard(rep: Report, prog: Program, resolver: Resolver, qual: str) 
         if facts:
             guards.append((anchor, facts))
     divs = [(n, comp) for n, comp, cmp in _floor_divs(fn) if cmp is None]
+    # divmod(x, d): quotient and remainder in one step; the guard is a raising test of the remainder
+    dm_done = False
+    for n in ast.walk(fn):
+        if isinstance(n, ast.Assign) and isinstance(n.value, ast.Call) and ast.unparse(n.value.func) == "divmod" and len(n.value.args) == 2 \
+                and isinstance(n.targets[0], ast.Tuple) and len(n.targets[0].elts) == 2 and all(isinstance(x, ast.Name) for x in n.targets[0].elts):
+            rem = n.targets[0].elts[1].id  # type: ignore[attr-defined]
+            key = f"{qual}:divmod({ast.unparse(n.value.args[0])}, {ast.unparse(n.value.args[1])})"
+            ok, why = False, "the remainder is never tested by a raising guard"
+            for st in ast.walk(fn):
+                if isinstance(st, ast.If) and st.body and isinstance(st.body[-1], ast.Raise) and rem in {x.id for x in ast.walk(st.test) if isinstance(x, ast.Name)}:
+                    conj = _flatten_and(st.test)
+                    extra = [ast.unparse(c) for c in conj if rem not in {x.id for x in ast.walk(c) if isinstance(x, ast.Name)}]
+                    if extra:
+                        why = f"the remainder guard only fires when {' and '.join(extra)}: other non-exact roots are floored silently"
+                    else:
+                        ok = True
+            rep.check("R01.2", key, ok, f"{key.split(':', 1)[1]} feeds the constructor but {why}", fi.where(n))
+            dm_done = True
+    if not divs and dm_done:
+        return
     if not divs:
         raise AnalysisError(f"{qual}: no floor division found (R01.2 anchor moved)")
     for n, comp in divs:
